@@ -316,13 +316,30 @@ impl World for C09World {
         let sides = ["left", "right", "below", "above"];
         let mut far_huge = false;
         let kind = r.below(10);
+        let _ = &far_huge;
         let tag;
         match kind {
             0..=2 => {
                 let side = r.below(4);
-                let gap = *r.pick(&[0.0, 1.0, 7.0]);
-                let slide = r.range(-(g / 2), g / 2) as f64;
-                b = place_beyond(&b, geom::bbox(&a).unwrap(), side, gap, slide);
+                // touching, near, or so far away that float spacing is comparable to the feature size
+                let huge = r.chance(1, 8);
+                let gap = if huge { (2.0f64).powi(*r.pick(&[20, 25, 27, 40, 50, 54])) } else { *r.pick(&[0.0, 1.0, 7.0]) };
+                let slide = if huge { 0.0 } else { r.range(-(g / 2), g / 2) as f64 };
+                let b_near = place_beyond(&b, geom::bbox(&a).unwrap(), side, 1.0, slide);
+                if huge {
+                    b = geom::scale(&b, 8.0);
+                }
+                let placed = place_beyond(&b, geom::bbox(&a).unwrap(), side, gap, slide);
+                // only keep the far placement if no coordinate was rounded (the operand must stay the valid shape it was)
+                let shift = (geom::bbox(&placed).unwrap().0 - geom::bbox(&b).unwrap().0, geom::bbox(&placed).unwrap().1 - geom::bbox(&b).unwrap().1);
+                if !huge {
+                    b = placed;
+                } else if let Some(exact) = geom::translate_exact(&b, shift.0, shift.1) {
+                    far_huge = true;
+                    b = exact;
+                } else {
+                    b = b_near;
+                }
                 tag = format!("clip {} of subject, gap {}", sides[side as usize], gap);
             }
             3..=5 => {
@@ -337,7 +354,18 @@ impl World for C09World {
                 far_huge = huge;
                 let (ba, bb) = (geom::bbox(&a).unwrap(), geom::bbox(&b).unwrap());
                 let all = (ba.0.min(bb.0), ba.1.min(bb.1), ba.2.max(bb.2), ba.3.max(bb.3));
-                let far = place_beyond(&far, all, side, gap, r.range(-(g / 2), g / 2) as f64);
+                let far0 = far.clone();
+                let mut far = place_beyond(&far, all, side, gap, if huge { 0.0 } else { r.range(-(g / 2), g / 2) as f64 });
+                if huge {
+                    let shift = (geom::bbox(&far).unwrap().0 - geom::bbox(&far0).unwrap().0, geom::bbox(&far).unwrap().1 - geom::bbox(&far0).unwrap().1);
+                    match geom::translate_exact(&far0, shift.0, shift.1) {
+                        Some(exact) => far = exact,
+                        None => {
+                            far = place_beyond(&geom::scale(&far0, 0.125), all, side, 7.0, 0.0);
+                            far_huge = false;
+                        }
+                    }
+                }
                 let on_subject = r.chance(1, 2);
                 if on_subject {
                     a.extend(far);
